@@ -554,8 +554,8 @@ func (st *State) havocLocation(env *Env, m *Expr) {
 	case ESel:
 		// x.f / x.* / T.f
 		baseE := m.Args[0]
-		if baseE.Kind == EIdent {
-			if T := st.tryTypeName(env, baseE.Op); T != nil {
+		{
+			if T := st.typeOfExpr(env, baseE); T != nil {
 				// whole heap variable of a field
 				if stt, ok := types.Unalias(T).Underlying().(*types.Struct); ok {
 					for i := 0; i < stt.NumFields(); i++ {
@@ -689,7 +689,7 @@ func (env *Env) tryMapExpr(m *Expr) (Value, *types.Map) {
 					return false
 				}
 			}
-		} else if m.Args[0].Kind == EIdent && env.st.tryTypeName(env, m.Args[0].Op) != nil {
+		} else if env.st.typeOfExpr(env, m.Args[0]) != nil {
 			return false
 		}
 		v = env.eval(m)
@@ -718,6 +718,27 @@ func (env *Env) ghostFieldDecl(T types.Type, name string) string {
 		return ""
 	}
 	return "GF_" + sanitize(pk+"_"+n.Obj().Name()+"_"+name)
+}
+
+// typeOfExpr: a spec expression that names a type: T or pkg.T
+func (st *State) typeOfExpr(env *Env, x *Expr) types.Type {
+	switch x.Kind {
+	case EIdent:
+		return st.tryTypeName(env, x.Op)
+	case ESel:
+		if x.Args[0].Kind == EIdent {
+			if _, ok := env.vars[x.Args[0].Op]; ok {
+				return nil
+			}
+			if env.fr != nil {
+				if _, ok := env.fr.params[x.Args[0].Op]; ok {
+					return nil
+				}
+			}
+			return st.eng().lookupTypeByPkgName(x.Args[0].Op, x.Op)
+		}
+	}
+	return nil
 }
 
 func (st *State) tryTypeName(env *Env, name string) types.Type {
@@ -1109,7 +1130,7 @@ func (u *Unit) checkFrame(st *State, pos token.Pos) {
 		// object-granular?
 		switch m.Kind {
 		case ESel:
-			if m.Args[0].Kind == EIdent && st.tryTypeName(env, m.Args[0].Op) != nil {
+			if st.typeOfExpr(env, m.Args[0]) != nil {
 				e.modifiesHeapNames(u.spec, m, ws)
 				for n := range ws.heap {
 					allowedAll[n] = true
@@ -1263,8 +1284,14 @@ func (e *Engine) modifiesHeapNames(spec *FuncSpec, m *Expr, ws *writeSet) bool {
 			return true
 		}
 	case ESel:
-		if m.Args[0].Kind == EIdent {
-			if T := e.lookupTypeByPkgName(spec.PkgName, m.Args[0].Op); T != nil {
+		if m.Args[0].Kind == EIdent || (m.Args[0].Kind == ESel && m.Args[0].Args[0].Kind == EIdent) {
+			var T types.Type
+			if m.Args[0].Kind == EIdent {
+				T = e.lookupTypeByPkgName(spec.PkgName, m.Args[0].Op)
+			} else if e.staticTypeOfSpecExpr(spec, m.Args[0].Args[0]) == nil {
+				T = e.lookupTypeByPkgName(m.Args[0].Args[0].Op, m.Args[0].Op)
+			}
+			if T != nil {
 				if stt, ok := types.Unalias(T).Underlying().(*types.Struct); ok {
 					ok2 := false
 					for i := 0; i < stt.NumFields(); i++ {
